@@ -124,11 +124,13 @@ func allSpecs1(strat string) []spec {
 					add("md5", f)
 				}
 				add("md5", "wrong-value")
+				add("md5", "wrong-value+company")
 				if mode == "signed" {
 					for _, f := range flipsPlain {
 						add("sha256", f)
 					}
 					add("sha256", "wrong-value")
+					add("sha256", "wrong-value+company")
 				}
 				if mode == "signed" || mode == "unsigned" || mode == "chunked" {
 					for _, a := range s3c.Algos {
@@ -136,6 +138,7 @@ func allSpecs1(strat string) []spec {
 							add("hdr-"+a, f)
 						}
 						add("hdr-"+a, "wrong-value")
+						add("hdr-"+a, "wrong-value+company")
 					}
 				}
 				if mode == "chunked-tr" || mode == "unsigned-tr" {
@@ -144,6 +147,7 @@ func allSpecs1(strat string) []spec {
 							add("tr-"+a, f)
 						}
 						add("tr-"+a, "wrong-value")
+						add("tr-"+a, "wrong-value+company")
 					}
 				}
 				if mode == "chunked" || mode == "chunked-tr" {
@@ -460,7 +464,31 @@ func build(s spec, r *rand.Rand, thorough bool) *plan {
 			}
 			bad.mutate = func(enc []byte) []byte { return flipAt(enc, encOff(enc, flipOff)) }
 		}
-	case s.corr == "wrong-value":
+	case s.corr == "wrong-value", s.corr == "wrong-value+company":
+		if s.corr == "wrong-value+company" {
+			// the other integrity assertions the mode admits are sent too, and are TRUE for the body: one false
+			// assertion must refuse the upload however many true ones accompany it
+			if s.field != "md5" {
+				base.md5 = s3c.MD5B64(payload)
+			}
+			if !strings.HasPrefix(s.field, "hdr-") && (s.mode == "signed" || s.mode == "unsigned" || s.mode == "chunked") {
+				base.hdrAlgo = []string{"sha256", "crc32", "sha1"}[r.Intn(3)]
+				if s.field == "sha256" {
+					// the same digest twice: the most inviting shortcut ("already hashed")
+					base.hdrAlgo = "sha256"
+				}
+				base.hdrVal = s3c.Checksum(base.hdrAlgo, payload)
+			}
+			p.ctl = base
+			md5v, ha, hv := bad.md5, bad.hdrAlgo, bad.hdrVal
+			bad = base
+			if s.field == "md5" {
+				bad.md5 = md5v
+			}
+			if strings.HasPrefix(s.field, "hdr-") {
+				bad.hdrAlgo, bad.hdrVal = ha, hv
+			}
+		}
 		switch {
 		case s.field == "md5":
 			bad.md5 = s3c.MD5B64(other)
@@ -1099,7 +1127,7 @@ func Run(c *ev.Ctx) int {
 	otmp := allSpecs("otmp", reps)
 	nootmp := allSpecs("nootmp", reps)
 	if !c.Thorough() {
-		otmp = selectQuick(c, otmp, true, 200, nil)
+		otmp = selectQuick(c, otmp, true, 200, func(s spec) bool { return strings.HasSuffix(s.corr, "+company") })
 		nootmp = selectQuick(c, nootmp, false, 40, func(s spec) bool {
 			return s.field == "declen" || s.field == "chunksig" && strings.Contains(s.corr, "+")
 		})
